@@ -102,9 +102,11 @@ Print Assumptions C11_no_signal_left_emitting.
 (* VALUES across a move construction (PropMove.v): the destination holds the value and the updater of the source, the source keeps
    its value and has no updater, no subscription appears or disappears, every binding is alive as before, and the three public
    signals (with every observer and reader subscribed to them) now belong to the destination, the source has fresh empty ones ... *)
+(* (no premise about observers: the subscribers of the private moved signal never act by the link invariant, whatever the observers of the
+   public signals do) *)
 Theorem C11_property_move_construction_transfers :
   forall fn rtl fuel w src dst w',
-    PropLink.pinv w -> PropSim.NOACT w -> PropFlags.NOEMIT w ->
+    PropLink.pinv w -> PropFlags.NOEMIT w ->
     PropDefs.step1 fn rtl fuel w (PropDefs.PMoveCtor src dst) = (w', None) ->
     exists s0 dn sn,
       lookup (PropDefs.w_props w) src = Some s0 /\ lookup (PropDefs.w_props w) dst = None /\ src <> dst /\
@@ -153,7 +155,7 @@ Print Assumptions C11_property_move_assignment_keeps_values.
    destination's OLD binding is dead and has left its evaluator's registry, no other registry changed *)
 Theorem C11_property_move_assignment_transfers :
   forall fn rtl fuel w dst src w',
-    PropLink.pinv w -> PropSim.NOACT w -> PropFlags.NOEMIT w ->
+    PropLink.pinv w -> PropFlags.NOEMIT w ->
     (forall b lf, PropLink.has_leaf w b lf -> PropLink.lf_tg lf <> Some dst) ->
     PropDefs.step1 fn rtl fuel w (PropDefs.PMoveAssign dst src) = (w', None) ->
     exists s0 d0 dn sn,
